@@ -46,3 +46,64 @@ Fixpoint strip (st : sstate) (l : list N) : list N :=
 
 Example ex1 : strip SNormal (path_pass (code_pass [BQ; 120; BQ; 32; DQ; 97; DQ; 32; BQ; 10; BQ])) = [BQ; 120; BQ; 32; DQ; 97; DQ; 32; BQ; 10; BQ].
 Proof. vm_compute. reflexivity. Qed.
+
+(* ---------- first lemmas: one delimiter pass over an ESC-free message is undone by strip ---------- *)
+Definition escfree (l : list N) : Prop := forall c, In c l -> c <> ESC.
+
+Lemma strip_escfree_app : forall a b, escfree a -> strip SNormal (a ++ b) = a ++ strip SNormal b.
+Proof.
+  induction a as [|c a IH]; intros b H; [reflexivity|].
+  cbn [app strip]. destruct (N.eqb_spec c ESC) as [E|E]; [exfalso; apply (H c); [left; reflexivity|exact E]|].
+  f_equal. apply IH. intros x Hx. apply H. right. exact Hx.
+Qed.
+
+Lemma strip_csi : forall code acc b, forallb is_param code = true -> strip (SCsi acc) (code ++ CM :: b) = strip SNormal b.
+Proof.
+  induction code as [|c code IH]; intros acc b H.
+  - cbn [app strip]. change (is_param CM) with false. cbn iota. rewrite N.eqb_refl. reflexivity.
+  - cbn [forallb] in H. apply andb_true_iff in H. destruct H as [Hc H]. cbn [app strip]. rewrite Hc. apply IH. exact H.
+Qed.
+
+Lemma strip_esc : forall code b, forallb is_param code = true -> strip SNormal (esc code ++ b) = strip SNormal b.
+Proof.
+  intros code b H. unfold esc. cbn [app strip]. rewrite N.eqb_refl. cbn [strip]. rewrite N.eqb_refl.
+  rewrite <- app_assoc. cbn [app]. apply strip_csi. exact H.
+Qed.
+
+Lemma dpass_strip : forall d co cc, d <> ESC -> forallb is_param co = true -> forallb is_param cc = true ->
+  forall l, escfree l ->
+  strip SNormal (dpass d (esc co) (esc cc) Outside l) = l /\
+  forall buf, escfree buf -> strip SNormal (dpass d (esc co) (esc cc) (Inside buf) l) = d :: buf ++ l.
+Proof.
+  intros d co cc Hd Hco Hcc. induction l as [|c r IH]; intros Hl.
+  - split; [reflexivity|]. intros buf Hb. cbn [dpass]. rewrite app_nil_r.
+    replace (d :: buf) with ((d :: buf) ++ []) by apply app_nil_r.
+    rewrite strip_escfree_app; [reflexivity|]. intros x [<-|Hx]; [exact Hd|apply Hb; exact Hx].
+  - assert (Hr : escfree r) by (intros x Hx; apply Hl; right; exact Hx).
+    assert (Hc : c <> ESC) by (apply Hl; left; reflexivity).
+    destruct (IH Hr) as [IHo IHi]. split.
+    + cbn [dpass]. destruct (N.eqb_spec c d) as [E|E].
+      * subst c. rewrite (IHi [] (fun x (H : In x []) => match H with end)). reflexivity.
+      * cbn [strip]. destruct (N.eqb_spec c ESC) as [E'|_]; [contradiction|]. rewrite IHo. reflexivity.
+    + intros buf Hb. cbn [dpass]. destruct (N.eqb_spec c d) as [E|E].
+      * subst c. rewrite strip_esc by exact Hco.
+        change (d :: buf ++ d :: esc cc ++ dpass d (esc co) (esc cc) Outside r)
+          with ((d :: buf) ++ d :: esc cc ++ dpass d (esc co) (esc cc) Outside r).
+        replace ((d :: buf) ++ d :: esc cc ++ dpass d (esc co) (esc cc) Outside r)
+          with (((d :: buf) ++ [d]) ++ esc cc ++ dpass d (esc co) (esc cc) Outside r) by (rewrite <- app_assoc; reflexivity).
+        rewrite strip_escfree_app.
+        -- rewrite strip_esc by exact Hcc. rewrite IHo. rewrite <- app_assoc. reflexivity.
+        -- intros x Hx. apply in_app_or in Hx. destruct Hx as [[<-|Hx]|[<-|[]]]; [exact Hd|apply Hb; exact Hx|exact Hd].
+      * destruct (N.eqb_spec c NL) as [E'|E'].
+        -- replace (d :: buf ++ c :: dpass d (esc co) (esc cc) Outside r)
+             with ((d :: buf ++ [c]) ++ dpass d (esc co) (esc cc) Outside r) by (cbn [app]; rewrite <- app_assoc; reflexivity).
+           rewrite strip_escfree_app.
+           ++ rewrite IHo. cbn [app]. rewrite <- app_assoc. reflexivity.
+           ++ intros x [<-|Hx]; [exact Hd|]. apply in_app_or in Hx. destruct Hx as [Hx|[<-|[]]]; [apply Hb; exact Hx|exact Hc].
+        -- rewrite IHi.
+           ++ rewrite <- app_assoc. reflexivity.
+           ++ intros x Hx. apply in_app_or in Hx. destruct Hx as [Hx|[<-|[]]]; [apply Hb; exact Hx|exact Hc].
+Qed.
+
+Theorem code_pass_strip : forall m, escfree m -> strip SNormal (code_pass m) = m.
+Proof. intros m H. apply (dpass_strip BQ [57; 53] [48]); [discriminate|reflexivity|reflexivity|exact H]. Qed.
